@@ -13,6 +13,7 @@ import (
 	"time"
 
 	corev1 "k8s.io/api/core/v1"
+	resourceapi "k8s.io/api/resource/v1"
 	metav1 "k8s.io/apimachinery/pkg/apis/meta/v1"
 	"k8s.io/utils/ptr"
 
@@ -34,6 +35,10 @@ type c11Shape struct {
 	groups []string // SelectedGPUGroups of the request
 	rtype  string
 	portion string
+	// DRA: the request carries an allocation for the pod's claim "acc"; stale = the claim is already allocated and still
+	// reserved for an earlier pod of the same name (another UID), as a failed attempt followed by a re-creation leaves it
+	dra      bool
+	draStale bool
 }
 
 func c11Shapes() []c11Shape {
@@ -47,7 +52,16 @@ func c11Shapes() []c11Shape {
 		return c11Shape{name: name, world: w, pod: "target", node: "n0", groups: groups, rtype: rtype, portion: portion}
 	}
 	sharer := WorkloadSpec{Name: "ws", Queue: "q0", MinMember: 1, AgeSec: 100, Pods: []PodSpec{{Name: "sharer", CPUm: 100, MemMi: 128, Fraction: "0.3", State: "running", Node: "n0", GPUGroups: []string{"gold"}}}}
+	draNodes := []NodeSpec{{Name: "n0", CPUm: 8000, MemMi: 16384, Pods: 20, GPUs: 4, GPUMemMi: 16000, DRADevices: 2}, {Name: "n1", CPUm: 8000, MemMi: 16384, Pods: 20, GPUs: 2, GPUMemMi: 16000, DRADevices: 2}}
+	mkDRA := func(name string, stale bool) c11Shape {
+		sh := mk(name, PodSpec{CPUm: 500, MemMi: 256, Claims: []ClaimRef{{Ref: "acc", Count: 1, Template: true}}}, nil, "Regular", "0")
+		sh.world.Nodes = draNodes
+		sh.dra, sh.draStale = true, stale
+		return sh
+	}
 	return []c11Shape{
+		mkDRA("dra-claim", false),
+		mkDRA("dra-claim-stale-reservation", true),
 		mk("cpu-only", PodSpec{CPUm: 500, MemMi: 256}, nil, "Regular", "0"),
 		mk("whole-gpu", PodSpec{CPUm: 500, MemMi: 256, GPUs: 2}, nil, "Regular", "1"),
 		mk("fraction-new-group", PodSpec{CPUm: 500, MemMi: 256, Fraction: "0.5"}, []string{"gnew"}, "Fraction", "0.50"),
@@ -100,8 +114,19 @@ func runC11Case(t *testing.T, c C11Case) (out c11Outcome) {
 				Spec: bindv1alpha2.BindRequestSpec{PodName: shape.pod, SelectedNode: shape.node, SelectedGPUGroups: shape.groups, ReceivedResourceType: shape.rtype,
 					ReceivedGPU: &bindv1alpha2.ReceivedGPU{Count: max(1, len(shape.groups)), Portion: shape.portion}, BackoffLimit: ptr.To(int32(5))},
 			}
+			var bopts []string
+			if shape.dra {
+				bopts = []string{"dra"}
+				br.Spec.ResourceClaimAllocations = []bindv1alpha2.ResourceClaimAllocation{{Name: "acc", Allocation: buildAllocation(shape.node, []string{draDeviceName(0)})}}
+				if shape.draStale {
+					c := api.Claim(ownClaimName(shape.pod, ClaimRef{Ref: "acc"})).DeepCopy()
+					c.Status.Allocation = buildAllocation(shape.node, []string{draDeviceName(0)})
+					c.Status.ReservedFor = []resourceapi.ResourceClaimConsumerReference{{Resource: "pods", Name: shape.pod, UID: "uid-of-the-earlier-incarnation"}}
+					api.updateClaim(c)
+				}
+			}
 			must(api.Tracker.Add(br))
-			b := NewBinderActor(api, 40*time.Second)
+			b := NewBinderActor(api, 40*time.Second, bopts...)
 			if c.Agent == "silent" {
 				b.AgentDelay = -1
 			}
@@ -122,7 +147,7 @@ func runC11Case(t *testing.T, c C11Case) (out c11Outcome) {
 			b.ResetCalls()
 			b.AgentDelay = time.Second
 			if crashed > 0 {
-				b = NewBinderActor(api, 40*time.Second)
+				b = NewBinderActor(api, 40*time.Second, bopts...)
 			}
 			if err := b.Sync(); err != nil {
 				fail("sync_error", "fault-free Sync after the attempt failed: %v", err)
@@ -227,6 +252,36 @@ func c11CheckBound(api *SimAPI, shape *c11Shape, pod *corev1.Pod, br *bindv1alph
 	}
 	if br.Status.Phase != bindv1alpha2.BindRequestPhaseSucceeded && !statusMayLag {
 		fail("bound_not_reported", "pod is bound but the request phase is %q", br.Status.Phase)
+	}
+	if shape.dra {
+		// "bound ... with its side objects in place (... claim reservations)": the claim holds the promised allocation and
+		// is reserved for THIS pod (by UID)
+		c := api.Claim(ownClaimName(shape.pod, ClaimRef{Ref: "acc"}))
+		switch {
+		case c == nil:
+			fail("bound_claim_missing", "bound pod's resource claim does not exist")
+		case c.Status.Allocation == nil:
+			fail("bound_claim_not_allocated", "pod is bound but its resource claim %s is not allocated", c.Name)
+		default:
+			var devs []string
+			for _, d := range c.Status.Allocation.Devices.Results {
+				devs = append(devs, d.Pool+"/"+d.Device)
+			}
+			if strings.Join(devs, ",") != shape.node+"/"+draDeviceName(0) {
+				fail("bound_claim_wrong_devices", "bound pod's claim holds %v, the request promised %s/%s", devs, shape.node, draDeviceName(0))
+			}
+			reserved := false
+			var cons []string
+			for _, rf := range c.Status.ReservedFor {
+				cons = append(cons, rf.Name+"/"+string(rf.UID))
+				if rf.UID == pod.UID {
+					reserved = true
+				}
+			}
+			if !reserved {
+				fail("bound_claim_not_reserved", "pod %s (uid %s) is bound but its resource claim %s is reserved for %v only", pod.Name, pod.UID, c.Name, cons)
+			}
+		}
 	}
 	if len(shape.groups) == 0 {
 		return
